@@ -19,8 +19,9 @@ import (
 )
 
 type caseParams struct {
-	Kind   string `json:"kind"`
-	Blocks int64  `json:"blocks"`
+	Kind    string `json:"kind"`
+	Variant int    `json:"variant"`
+	Blocks  int64  `json:"blocks"`
 }
 
 func cases(tier string, seed int64) []fw.Case {
@@ -36,7 +37,7 @@ func cases(tier string, seed int64) []fw.Case {
 		if kind == "version" && tier != "thorough" {
 			b = 1500 // no TTL expiry needed: version gate and governance
 		}
-		out = append(out, fw.MkCase(fmt.Sprintf("%s-%03d", kind, i), r.Int63(), caseParams{Kind: kind, Blocks: b}))
+		out = append(out, fw.MkCase(fmt.Sprintf("%s-%03d", kind, i), r.Int63(), caseParams{Kind: kind, Variant: i / len(kinds), Blocks: b}))
 	}
 	return out
 }
@@ -68,7 +69,7 @@ func init() {
 		},
 		Cases:       cases,
 		Run:         runHistory,
-		MinCounters: []string{"liveness_checks", "jail_events", "unjail_ok", "decisions_free_alive", "decisions_free_in_grace", "decisions_free_protected", "decisions_jailed_as_required", "sentence_extended", "sentence_reset", "keepalive_accepted", "keepalive_refused_outdated", "min_version_raised", "gov_requirements_refused", "real_gov_rounds_passed"},
+		MinCounters: []string{"liveness_checks", "jail_events", "unjail_ok", "decisions_free_alive", "decisions_free_in_grace", "decisions_free_protected", "decisions_jailed_as_required", "decisions_jailed_as_required_unbonding", "decisions_jailed_exactly_at_expiry", "decisions_jailed_first_check_after_grace", "decisions_free_on_last_grace_block", "sentence_extended", "sentence_reset", "keepalive_accepted", "keepalive_refused_outdated", "min_version_raised", "gov_requirements_refused", "real_gov_rounds_passed"},
 		Workers:     16,
 		TimeoutS:    900,
 	})
